@@ -290,6 +290,29 @@ func init() {
 	})
 }
 
+func init() {
+	register(&Property{
+		ID:          "C16",
+		Patterns:    enginePatterns,
+		HarnessDirs: []string{"internal/check/zzverif"},
+		ReplayTags:  "sqlite",
+		Assumptions: []string{"MappingManager replaced by an injective string<->UUID table (stubMapping); equality of the opaque symbolic strings is decided by the solver", "namespaces N and M configured through the real memory namespace manager"},
+		Outside:     []string{"the SQL mapping manager (batchFromUUIDs paging by 100, MapStringsToUUIDs insert): not covered in this check", "batches larger than the bound"},
+		Runs: func(tier string) []Run {
+			a := engineRun("tuples", "HarnessC16Tuples", map[string]int64{"nmax": pick(tier, 2, 3)})
+			a.Reach = []string{"c16.mapped"}
+			b := engineRun("query", "HarnessC16Query", map[string]int64{})
+			b.Reach = []string{"c16.query"}
+			c := engineRun("tree", "HarnessC16Tree", map[string]int64{})
+			c.Reach = []string{"c16.tree"}
+			return []Run{a, b, c}
+		},
+		Bounds: func(tier string) map[string]interface{} {
+			return map[string]interface{}{"batch size": "0.." + itoa(pick(tier, 2, 3)), "names": "opaque symbolic strings (any length and content) with arbitrary equalities among them", "query shapes": "all 2^3 x 3", "trees": "3-4 nodes"}
+		},
+	})
+}
+
 func itoa(n int64) string {
 	s := ""
 	if n == 0 {
